@@ -139,6 +139,59 @@ fn k13_2_window_u8() {
     kani::cover!(true, "end reached");
 }
 
+/// Window, mixed reads: 4 operations of symbolic kind {bit, u2, u8} on a
+/// window with symbolic bounds: each returns the window's next bits and fails
+/// iff fewer bits than it needs remain *in the window*.
+#[kani::proof]
+#[kani::unwind(10)]
+fn k13_2_window_ops() {
+    let data: [u8; 3] = kani::any();
+    let start: usize = kani::any();
+    let end: usize = kani::any();
+    kani::assume(start <= end && end <= 24);
+    let mut it = BitIter::byte_slice_window(&data, start, end);
+    let mut p = start;
+    let mut step = 0;
+    while step < 4 {
+        let op: u8 = kani::any();
+        kani::assume(op < 3);
+        let need = if op == 0 { 1 } else if op == 1 { 2 } else { 8 };
+        let enough = p + need <= end;
+        match op {
+            0 => {
+                let r = it.read_bit();
+                assert!(r.is_ok() == enough, "read_bit ignores the window's end");
+                if enough {
+                    assert!(r == Ok(refbit(&data, p)));
+                }
+            }
+            1 => {
+                let r = it.read_u2();
+                assert!(r.is_ok() == enough, "read_u2 ignores the window's end");
+                if enough {
+                    assert!(u8::from(r.unwrap()) == refbits(&data, p, 2) as u8);
+                }
+            }
+            _ => {
+                let r = it.read_u8();
+                assert!(r.is_ok() == enough, "read_u8 ignores the window's end");
+                if enough {
+                    assert!(r == Ok(refbits(&data, p, 8) as u8));
+                }
+            }
+        }
+        if !enough {
+            assert!(it.n_total_read() <= end - start, "position counter ran past the window");
+            kani::cover!(op == 1 && end - p == 1, "read_u2 with one bit left");
+            return;
+        }
+        p += need;
+        assert!(it.n_total_read() == p - start, "position counter inconsistent inside a window");
+        step += 1;
+    }
+    kani::cover!(p - start == 19, "mixed reads crossing two byte boundaries");
+}
+
 // ---------------------------------------------------------------- K13.3
 /// close() succeeds exactly when no unread byte remains and every unread bit
 /// of the current byte is zero.
@@ -224,20 +277,26 @@ fn k13_4_writer_ops() {
     kani::cover!(n % 8 == 3 && n > 16, "unaligned total");
 }
 
-/// `io::Write for BitWriter` (byte writes at any alignment): k bits then 2
-/// bytes written through `io::Write::write` come back shifted by k.
+/// `io::Write for BitWriter` (byte writes at any alignment, including exactly on
+/// a byte boundary with a pending cached byte): k <= 16 bits then 2 bytes
+/// written through `io::Write::write` come back shifted by k.
 #[kani::proof]
 #[kani::unwind(18)]
 fn k13_4_writer_bytes() {
     use std::io::Write;
-    let mut sink = Sink::<4>::new();
+    let mut sink = Sink::<5>::new();
     let k: usize = kani::any();
-    kani::assume(k <= 7);
-    let lead: u8 = kani::any();
+    kani::assume(k <= 16);
+    let lead: u16 = kani::any();
     let bytes: [u8; 2] = kani::any();
+    let flush_between: bool = kani::any();
     {
         let mut w = BitWriter::new(&mut sink);
         w.write_bits_be(lead as u64, k).unwrap();
+        if flush_between && k % 8 == 0 {
+            // flushing on a byte boundary must not change the stream
+            w.flush_all().unwrap();
+        }
         let r = w.write(&bytes).unwrap();
         assert!(r == 2);
         assert!(w.n_total_written() == k + 16);
@@ -245,9 +304,15 @@ fn k13_4_writer_bytes() {
     }
     assert!(sink.len == (k + 16 + 7) / 8);
     let q: usize = kani::any();
-    kani::assume(q < 16);
-    assert!(refbit(&sink.buf, k + q) == refbit(&bytes, q));
+    kani::assume(q < k + 16);
+    if q < k {
+        assert!(refbit(&sink.buf, q) == ((lead >> (k - 1 - q)) & 1 == 1), "leading bits changed or moved");
+    } else {
+        assert!(refbit(&sink.buf, q) == refbit(&bytes, q - k), "bytes written through io::Write are out of place");
+    }
     kani::cover!(k == 5, "unaligned byte writes");
+    kani::cover!(k == 8 && !flush_between, "byte write on a boundary with a pending cached byte");
+    kani::cover!(k == 16 && flush_between, "byte write after a flush on a boundary");
 }
 
 /// `collect_bits`: the first `nb <= 16` bits of 2 symbolic bytes are collected
